@@ -60,9 +60,27 @@ Proof. exact exception_typed_rel. Qed.
    stream so does a response that lost its cursor. *)
 Theorem mismatching_responses_rejected : forall i r p,
   In r (smodel i) -> In p (o_posts r) -> transparent (p_fault p) = false ->
-  (lossy (p_fault p) = false \/ (i_exchange i = true /\ p_cancel p = false)) ->
+  (lossy (p_fault p) = false \/ reaches_parser (p_fault p) = false
+   \/ (i_exchange i = true /\ p_cancel p = false)) ->
   is_err (o_res r) = true.
 Proof. exact reject_rel. Qed.
+
+(* (5c) Content coding, on the two headers a response can declare it on.  The client
+   accepts a response only if the header it reads - the standard Content-Encoding,
+   or X-VGI-Content-Encoding when the standard one is absent - is absent or names a
+   supported coding the body really is in; otherwise the call fails, on every route
+   (init, exchange turn, producer turn, cancel), whatever else the fault did - so an
+   unsupported coding on the standard header only, on the custom header only, or on
+   both is always refused (and, by (2), poisons an exchange stream). *)
+Theorem encoding_mismatch_refused : forall i r p,
+  In r (smodel i) -> In p (o_posts r) -> enc_accepts (f_enc (p_fault p)) = false ->
+  is_err (o_res r) = true.
+Proof. exact encoding_refused_rel. Qed.
+
+Theorem encoding_accepted_iff : forall e,
+  enc_accepts e = true <->
+  (enc_std e = COk \/ (enc_std e = CAbsent /\ (enc_custom e = COk \/ enc_custom e = CAbsent))).
+Proof. exact enc_accepts_spec. Qed.
 
 (* (6) The whole property in the decidable form evaluated on the implementation's
    observables: well-formed POSTs, typed exceptions, rejection, open contract, no cursor
